@@ -84,6 +84,9 @@ func scenarios(tier string) []engine.Scenario {
 			names, groups := opGroups(pl.pos[0])
 			for init := range initNames {
 				init := init
+				if tier == "quick" && !primary && init != 0 && init != 2 {
+					continue // quick: secondary configurations start from the equal-scales and the rescaled-operand files only
+				}
 				for _, g := range names {
 					first := groups[g]
 					name := fmt.Sprintf("%s/%s/init-%s/first-%s", cf.Name, pl.name, initNames[init], g)
@@ -99,7 +102,7 @@ func scenarios(tier string) []engine.Scenario {
 
 func runProgram(c *engine.Chooser, e *env, name string, init int, first []instr, rest [][]instr) {
 	uni.Seed(c, name) // no fresh randomness is drawn inside a leaf (registers are copies); kept for discipline
-	m := newMachine(e, c, init)
+	m := newMachine(e, c, name, init)
 	c.Cover("init", initNames[init])
 	c.Cover("config", e.cf.Name)
 	c.Cover("ring", map[bool]string{false: "standard", true: "conjugate-invariant"}[e.ci])
